@@ -509,7 +509,24 @@ async fn scenario(a: &ShardArgs, idx: u64) {
                 sync,
                 time,
             };
-            update(&pair.o, &s);
+            // sometimes only flags and time change (Database::update_flags): the value stays what it was
+            let s = match latest.get(&(t, i)) {
+                Some(prev) if t < 7 && r.chance(1, 6) => {
+                    let s2 = Src { flags: s.flags, sync: s.sync, time: s.time, ..prev.clone() };
+                    let ft = [UpdateFlagsType::BinaryInput, UpdateFlagsType::DoubleBitBinaryInput, UpdateFlagsType::BinaryOutputStatus, UpdateFlagsType::Counter, UpdateFlagsType::FrozenCounter, UpdateFlagsType::AnalogInput, UpdateFlagsType::AnalogOutputStatus][t];
+                    let tm = if s2.sync { Time::synchronized(s2.time) } else { Time::unsynchronized(s2.time) };
+                    let info = pair.o.db(|db| db.update_flags(i, ft, Flags::new(s2.flags), Some(tm), UpdateOptions::new(true, EventMode::Force)));
+                    if !matches!(info, UpdateInfo::Created(_) | UpdateInfo::Overflow { .. }) {
+                        violations.push(("update_flags".into(), format!("t{t}"), format!("update_flags on an existing point of type {t} index {i} returned {info:?}")));
+                    }
+                    out::count("update_flags_used", 1);
+                    s2
+                }
+                _ => {
+                    update(&pair.o, &s);
+                    s
+                }
+            };
             pending.entry((t, i)).or_default().push_back(s.clone());
             latest.insert((t, i), s);
         }
